@@ -98,7 +98,7 @@ def run(ctx):
                 attrs = pick_attrs(ctx.rng, full=(rep == 0), with_unknown=(rep % 2 == 1))
                 cases.append({"id": "r%d" % k, "kind": "c19_records", "abs": {},
                               "args": {"attrs": attrs, "form": form, "via": via, "d": ctx.rng.choice([1, 2]),
-                                       "as_list": ctx.rng.random() < 0.5}})
+                                       "shape": ctx.rng.choice(["star", "list", "group_first", "group_middle", "nested_list"])}})
                 k += 1
     check(ctx, cases)
     ctx.rule = ("file histories = every behaviour of spec/Export.tla with %d operations (new / existing file; tracts_to_csv w|a; "
